@@ -102,6 +102,16 @@ let () =
           | o :: _ -> "fail:" ^ o
           | [] -> "fail:no-observation" in
         Mlutil.print_model [m] verdict
+    | "fedstop", [_] ->
+        (* shutdown in the middle of a burst: Props/C15 emit_never_blocks, deliver_after_stop_never_blocks,
+           sync_after_stop_returns, stopped_hub_is_frozen say nothing may block; the model's answer is "ok" *)
+        let verdict = match outs with
+          | ["ok"] -> "ok"
+          | ["blocked"] -> "fail:late-operation-blocked-after-the-hub-stopped"
+          | ["disorder"] -> "fail:attached-monitor-saw-events-out-of-order-before-the-stop"
+          | "PANIC" :: _ -> "fail:panic"
+          | _ -> "fail:observation-does-not-fit" in
+        Mlutil.print_model ["ok"] verdict
     | "fed", [events; history; dels; fl] ->
         let ev = int_of_string events and h = int_of_string history in
         let dl = if dels = "-" then [] else List.map int_of_string (split ',' dels) in
